@@ -71,3 +71,16 @@ Theorem C09_entry_points_return_result_xor_error :
     xor_res _ (validate_logout_request_tree dsig cfg root).
 Proof. exact entry_points_xor. Qed.
 Print Assumptions C09_entry_points_return_result_xor_error.
+
+(* The validation stage of every entry point never dereferences nil: the bodies of Validate, VerifyAssertionConditions and
+   the logout validators, translated from /repo's source on this run with an explicit panic outcome for every pointer
+   dereference (GenFuncs.v over GenPrelude.pm), return [PVal _] for every decoded struct, every configuration, every
+   clock.  (Here the statement is NOT by construction of the type: [pm] has a panic constructor.) *)
+From V Require Import GenPrelude GenFuncs P_GenFuncs.
+Theorem C09_validation_stage_never_panics : forall cfg now,
+  (forall r, exists v, G_Validate cfg now r = PVal v) /\
+  (forall a, exists v, G_VerifyAssertionConditions cfg now a = PVal v) /\
+  (forall r, exists v, G_ValidateDecodedLogoutResponse cfg now r = PVal v) /\
+  (forall r, exists v, G_ValidateDecodedLogoutRequest cfg now r = PVal v).
+Proof. exact validation_stage_never_panics. Qed.
+Print Assumptions C09_validation_stage_never_panics.
